@@ -32,16 +32,21 @@ def env_behaviours(ctx, n, *, max_crash, max_ops, seed_off=0):
 def directed(ctx):
     res = []
     for f in sorted(glob.glob(os.path.join(vlib.SPEC, "consensus", "directed", "*.json"))):
-        res.append(json.load(open(f)))
+        if not f.endswith(".cluster.json"):
+            res.append(json.load(open(f)))
     return res
 
 
-def run_nodes(ctx, behaviours, kinds, shards):
-    inp = ctx.path("in", "schedules.ndjson")
+def cluster_schedules(ctx):
+    return [json.load(open(f)) for f in sorted(glob.glob(os.path.join(vlib.SPEC, "consensus", "directed", "*.cluster.json")))]
+
+
+def run_nodes(ctx, behaviours, kinds, shards, test="TestNode"):
+    inp = ctx.path("in", "schedules.%s.ndjson" % test)
     with open(inp, "w") as fh:
         for b in behaviours:
             fh.write(json.dumps(b) + "\n")
-    recs = ctx.go_replay("csnode", "TestNode", inp, shards=shards, timeout=ctx.pick(900, 3000),
+    recs = ctx.go_replay("csnode", test, inp, shards=shards, timeout=ctx.pick(900, 3000),
                          env={"TMPDIR": ctx.path("gotmp", "x")[:-2]})
     lines, cases = [], {}
     for r in recs:
@@ -60,8 +65,10 @@ def run_nodes(ctx, behaviours, kinds, shards):
     for b in rep[-1]["bad"]:
         (bad if b["kind"] in kinds else other).setdefault(b["t"], []).append(b)
     for case, r in cases.items():
-        if case in bad:
-            b = sorted(bad[case], key=lambda x: x["line"])[0]
+        # a cluster run holds one trace per real engine: <case>.<node>
+        mine = [b for t, bs in bad.items() if t == case or t.startswith(case + ".") for b in bs]
+        if mine and r.get("status") != "violation":
+            b = sorted(mine, key=lambda x: x["line"])[0]
             r["status"] = "violation"
             r["key"] = "cscontract:" + b["kind"]
             name = (r["detail"].get("behaviour") or {}).get("name")
